@@ -510,8 +510,11 @@ class Pipe<StageClass::kSingleStage, CurStage, SinkPipe> {
   Pipe(ConcurrentTaskSet& tasks, StageIn&& s) : tasks_(tasks), stage_(std::forward<StageIn>(s)) {}
 
   void execute() {
-    size_t numThreads = std::min(tasks_.numPoolThreads(), StageLimits<CurStage>::limit(stage_));
-    for (size_t i = 0; i < numThreads; ++i) {
+    // At least one instance, as for the generator of a multi-stage pipeline: with a zero-thread
+    // pool the instance runs inline on the calling thread.
+    ssize_t numThreads = std::max<ssize_t>(
+        1, std::min(tasks_.numPoolThreads(), StageLimits<CurStage>::limit(stage_)));
+    for (ssize_t i = 0; i < numThreads; ++i) {
       DISPENSO_VERIF_POINT("PlGenSubmit", this);
       tasks_.schedule([this]() {
         DISPENSO_VERIF_NOTE("PlRunG", this, 0, 0);
